@@ -258,3 +258,43 @@ Example C15_link_symm_par_nonvacuous :
      = ([5;3;4;0;1;2]%N, [0;0;0;1;1;2], 3).
 Proof. cbv zeta. split; vm_compute; reflexivity. Qed.
 (* ---- visit links ---- *)
+
+(* ---- big checkers ---- *)
+(** The oracle of the large-n probe (channel "sccbig": [sort_by_size] / [par_sort_by_size]
+    on component arrays of several hundred thousand nodes, far above the minimum task length
+    of the parallel loops).  [big_check_sort_by_size] (Algo/BigCheck.v) runs in O(n log n)
+    on lists - a merge sort of (key, payload) pairs and linear scans - and DECIDES the
+    hypothesis and the five array-level conclusions of [S_sort_by_size]. *)
+From WG Require Import Algo.BigCheck Algo.BigCheckStatements Algo.BigCheckFacts.
+
+(** the merge sort all three checkers rest on: a permutation of the input, sorted by key *)
+Theorem C15_big_ksort_correct : S_ksort_correct.
+Proof. exact ksort_correct. Qed.
+Print Assumptions C15_big_ksort_correct.
+
+(** the checker returns [true] iff the old indices are below [k], the arrays have the same
+    length and induce the same partition, the new indices are below [k], and the sizes are
+    [compute_sizes] of the new array and non-increasing *)
+Theorem C15_big_sort_by_size_spec : S_big_sort_by_size_spec.
+Proof. exact big_sort_by_size_spec. Qed.
+Print Assumptions C15_big_sort_by_size_spec.
+
+(** it accepts whatever the model of [sort_by_size] returns ([C15_sort_by_size]) *)
+Theorem C15_big_sort_by_size_model : S_big_sort_by_size_model.
+Proof. exact big_sort_by_size_model. Qed.
+Print Assumptions C15_big_sort_by_size_model.
+
+(** non-vacuity: the two renumberings of [C15_nonvacuous_sort] are accepted; a merge of two
+    components, a split, wrong sizes, sizes in the wrong order, an index out of range and a
+    missing size are refused *)
+Example C15_big_sort_by_size_example :
+  big_check_sort_by_size 4 [0;1;1;2;2;3]%N [2;1;1;0;0;3]%N [2;2;1;1]%N = true
+  /\ big_check_sort_by_size 4 [0;1;1;2;2;3]%N [3;0;0;1;1;2]%N [2;2;1;1]%N = true
+  /\ big_check_sort_by_size 4 [0;1;1;2;2;3]%N [3;0;0;1;1;1]%N [2;3;0;1]%N = false
+  /\ big_check_sort_by_size 4 [0;1;1;2;2;3]%N [3;0;1;1;0;2]%N [2;2;1;1]%N = false
+  /\ big_check_sort_by_size 4 [0;1;1;2;2;3]%N [3;0;0;1;1;2]%N [2;2;1;2]%N = false
+  /\ big_check_sort_by_size 4 [0;1;1;2;2;3]%N [0;1;1;2;2;3]%N [1;2;2;1]%N = false
+  /\ big_check_sort_by_size 4 [0;1;1;2;2;3]%N [4;0;0;1;1;2]%N [2;2;1;1]%N = false
+  /\ big_check_sort_by_size 4 [0;1;1;2;2;3]%N [3;0;0;1;1;2]%N [2;2;1]%N = false.
+Proof. vm_compute. repeat split; reflexivity. Qed.
+(* ---- big checkers ---- *)
